@@ -14,3 +14,47 @@ pub fn arc_accepts(from: f64, to: f64, x: f64, margin: f64) -> Option<bool> {
     if near(0.0) < margin || near(w) < margin { return None; }
     Some(d <= w)
 }
+
+// ---------------------------------------------------------------------------------------------
+// Independent OPW link chain in plain f64 (no nalgebra): the reference model of C01/C03/C05/...
+pub type M3 = [[f64; 3]; 3];
+pub type V3 = [f64; 3];
+#[derive(Clone, Copy, Debug)]
+pub struct Iso { pub r: M3, pub t: V3 }
+pub const I3: M3 = [[1.0, 0.0, 0.0], [0.0, 1.0, 0.0], [0.0, 0.0, 1.0]];
+pub fn mm(a: &M3, b: &M3) -> M3 { let mut o = [[0.0; 3]; 3]; for i in 0..3 { for j in 0..3 { for k in 0..3 { o[i][j] += a[i][k] * b[k][j]; } } } o }
+pub fn mv(a: &M3, v: &V3) -> V3 { let mut o = [0.0; 3]; for i in 0..3 { for k in 0..3 { o[i] += a[i][k] * v[k]; } } o }
+pub fn tr(a: &M3) -> M3 { let mut o = [[0.0; 3]; 3]; for i in 0..3 { for j in 0..3 { o[i][j] = a[j][i]; } } o }
+pub fn rz(q: f64) -> M3 { let (s, c) = q.sin_cos(); [[c, -s, 0.0], [s, c, 0.0], [0.0, 0.0, 1.0]] }
+pub fn ry(q: f64) -> M3 { let (s, c) = q.sin_cos(); [[c, 0.0, s], [0.0, 1.0, 0.0], [-s, 0.0, c]] }
+pub fn rx(q: f64) -> M3 { let (s, c) = q.sin_cos(); [[1.0, 0.0, 0.0], [0.0, c, -s], [0.0, s, c]] }
+pub fn compose(a: &Iso, b: &Iso) -> Iso { let rt = mv(&a.r, &b.t); Iso { r: mm(&a.r, &b.r), t: [a.t[0] + rt[0], a.t[1] + rt[1], a.t[2] + rt[2]] } }
+pub fn inv(a: &Iso) -> Iso { let rt = tr(&a.r); let t = mv(&rt, &a.t); Iso { r: rt, t: [-t[0], -t[1], -t[2]] } }
+pub fn ident() -> Iso { Iso { r: I3, t: [0.0; 3] } }
+pub fn dist(a: &V3, b: &V3) -> f64 { ((a[0] - b[0]).powi(2) + (a[1] - b[1]).powi(2) + (a[2] - b[2]).powi(2)).sqrt() }
+/// rotation angle between two rotation matrices
+pub fn rot_angle(a: &M3, b: &M3) -> f64 {
+    let d = mm(&tr(a), b); let trc = d[0][0] + d[1][1] + d[2][2];
+    // robust for small angles: use the skew part as well
+    let s = 0.5 * ((d[2][1] - d[1][2]).powi(2) + (d[0][2] - d[2][0]).powi(2) + (d[1][0] - d[0][1]).powi(2)).sqrt();
+    s.atan2(0.5 * (trc - 1.0))
+}
+pub fn det(m: &M3) -> f64 {
+    m[0][0] * (m[1][1] * m[2][2] - m[1][2] * m[2][1]) - m[0][1] * (m[1][0] * m[2][2] - m[1][2] * m[2][0]) + m[0][2] * (m[1][0] * m[2][1] - m[1][1] * m[2][0])
+}
+
+#[derive(Clone, Copy, Debug)]
+pub struct Opw { pub a1: f64, pub a2: f64, pub b: f64, pub c1: f64, pub c2: f64, pub c3: f64, pub c4: f64, pub off: [f64; 6], pub sign: [f64; 6] }
+
+/// the six link frames of the OPW model: product of elementary joint transforms
+pub fn chain(p: &Opw, j: &[f64; 6]) -> [Iso; 6] {
+    let q: Vec<f64> = (0..6).map(|i| j[i] * p.sign[i] - p.off[i]).collect();
+    let l1 = Iso { r: rz(q[0]), t: [0.0, 0.0, p.c1] };
+    let l2 = compose(&l1, &Iso { r: ry(q[1]), t: [p.a1, p.b, 0.0] });
+    let l3 = compose(&l2, &Iso { r: ry(q[2]), t: [0.0, 0.0, p.c2] });
+    let l4 = compose(&l3, &Iso { r: rz(q[3]), t: [p.a2, 0.0, 0.0] });
+    let l5 = compose(&l4, &Iso { r: ry(q[4]), t: [0.0, 0.0, p.c3] });
+    let l6 = compose(&l5, &Iso { r: rz(q[5]), t: [0.0, 0.0, p.c4] });
+    [l1, l2, l3, l4, l5, l6]
+}
+pub fn fk(p: &Opw, j: &[f64; 6]) -> Iso { chain(p, j)[5] }
